@@ -531,7 +531,9 @@ class FunctionLocation(Location):
     @property
     def id(self):
         """The location id."""
-        return "%s#%s" % (self.path, self.__function_name)
+        # not the format of a line location: a method name can read like a line number, and tracepoints are grouped
+        # by this id
+        return "%s#%s()" % (self.path, self.__function_name)
 
     @property
     def path(self):
